@@ -224,11 +224,13 @@ func Expand(list []tlsref.Ext, outer []tlsref.Ext) ([]tlsref.Ext, bool) {
 			return nil, false
 		}
 		p := 0
+		referenced := map[uint16]bool{}
 		for i := 1; i+1 < len(d); i += 2 {
 			t := uint16(d[i])<<8 | uint16(d[i+1])
-			if t == tlsref.ExtECH || t == tlsref.ExtOuterExtensions {
-				return nil, false
+			if t == tlsref.ExtECH || t == tlsref.ExtOuterExtensions || referenced[t] {
+				return nil, false // (a type referenced twice is illegal whatever the outer hello holds)
 			}
+			referenced[t] = true
 			for p < len(outer) && outer[p].Type != t {
 				p++
 			}
